@@ -67,6 +67,8 @@ func c11Run(c *Case) (string, []Fail) {
 		return c11RunUnderFakeClock(c)
 	case 7:
 		return c11RunTwoMakers(c)
+	case 9:
+		return c11RunSerialized(c)
 	}
 	return "badcase", nil
 }
@@ -676,6 +678,14 @@ func c11Judge(c *Case, mk *c11Maker, frozen int64, streams [][]byte, results []*
 		if c.Kind == 8 {
 			payload += "=" + c11RunLengths(d.payload)
 		}
+		if c.Kind == 9 {
+			var arr []json.RawMessage
+			if err := json.Unmarshal(d.payload, &arr); err != nil {
+				payload = "notjson"
+			} else {
+				payload = strconv.Itoa(len(arr))
+			}
+		}
 		if c.Kind == 6 {
 			items = append(items, fmt.Sprintf("%s.%s.%s.%s.%s.%s", ch.ID, map[bool]string{true: "1", false: "0"}[idok], size, flags,
 				hex.EncodeToString([]byte(d.tag)), payload))
@@ -1273,6 +1283,7 @@ func c11Gen(g *Gen) {
 	}
 	c11GenWrapperBoundaries(g)
 	c11GenLarge(g)
+	c11GenSerializedValues(g)
 	c11GenDatadogReal(g)
 	c11GenIDs(g)
 	c11GenFakeClock(g)
